@@ -404,7 +404,8 @@ def entry_points(ctx, store):
     return eps
 
 
-def memo_coherence(ctx, rule):
+def memo_coherence(ctx, rule, skip_fill=None):
+    """skip_fill(body) -> True for fill bodies that are outside the property's quantifier (e.g. only used for the empty query)"""
     facts = ctx.facts
     store = _store_adt(ctx)
     if not ctx.require(rule, "Store", store):
@@ -430,6 +431,9 @@ def memo_coherence(ctx, rule):
                         fills.append((b, bi, st))
         if not fills:
             ctx.ok(rule, "memo-unused:%s" % memo, "-", "memo cell %s is never filled" % memo)
+            continue
+        if skip_fill is not None and all(skip_fill(fb_) for fb_, _, _ in fills):
+            ctx.ok(rule, "memo-out-of-scope:%s" % memo, "-", "memo cell %s is filled and read only on paths outside this property's quantifier" % memo)
             continue
         for (fb, fbi, fst) in fills:
             sy = ctx.sym(fb)
